@@ -49,7 +49,7 @@ EQB = {
     'precision': 'precision_eqb', 'dtype': 'dtype_eqb',
     'granularity': 'granularity_eqb', 'qtrans': 'qtrans_eqb',
     'algname': 'algname_eqb', 'tcfg': 'tcfg_eqb', 'ocfg': 'ocfg_eqb',
-    'P': 'peqb', 'str': '(fun _ _ : unit => true)',
+    'P': 'qparam_eqb', 'str': '(fun _ _ : unit => true)',
 }
 
 
@@ -68,8 +68,7 @@ def coq_type(ty):
     return f'(option {coq_type(ty[1])})'
   if isinstance(ty, tuple) and ty[0] == 'list':
     return f'(list {coq_type(ty[1])})'
-  return {'str': 'unit', 'policy': 'policy_t', 'o2t': '(o2t P)',
-          'inst': '(inst P)', 'ttp': '(ttp P)'}.get(ty, ty)
+  return {'str': 'unit', 'policy': 'policy_t', 'P': 'qparam'}.get(ty, ty)
 
 
 class FT:
@@ -87,6 +86,13 @@ class FT:
   def enum_const(self, node):
     if isinstance(node, ast.Attribute):
       chain = ast.unparse(node).split('.')
+      if len(chain) >= 2 and chain[-2] == 'TensorType':
+        codes = {'FLOAT32': 'TY_FLOAT32', 'FLOAT16': 'TY_FLOAT16',
+                 'INT32': 'TY_INT32', 'INT64': 'TY_INT64', 'INT16': 'TY_INT16',
+                 'INT8': 'TY_INT8', 'INT4': 'TY_INT4'}
+        if chain[-1] not in codes:
+          fail(self.path, node, f'unknown tensor type {chain[-1]}')
+        return codes[chain[-1]], 'Z'
       if len(chain) >= 2 and chain[-2] in ENUM_ALIASES:
         ty = ENUM_ALIASES[chain[-2]]
         m = self.ctx.enum_by_member[ty]
@@ -508,6 +514,34 @@ Definition is_empty_policy (p : policy_t) : bool :=
   return '\n'.join(out)
 
 
+def gen_instchecks(ctx):
+  out = [HEADER, 'From VF Require Import Gen.Enums Model.Graph.\n']
+  tig = 'transformation_instruction_generator.py'
+  out.append(translate_func(
+      ctx, tig, 'check_horizontal_optimization',
+      [('param1', 'o2t'), ('param2', 'o2t'), ('index', 'Z')], 'bool', {}))
+  for fn in ('check_dq_q_elimination', 'check_replace_dq_q_with_rq',
+             'check_dq_no_quant_elimination'):
+    out.append(translate_func(
+        ctx, tig, fn, [('producer_inst', 'inst'), ('consumer_inst', 'inst')],
+        'bool', {}))
+  qt = 'transformations/quantize_tensor.py'
+  out.append(translate_func(ctx, qt, 'quant_params_to_tflite_type',
+                            [('bitwidth', 'Z')], 'Z', {}))
+  out.append(translate_func(ctx, qt, 'nonlinear_quant_params_to_tflite_type',
+                            [('bitwidth', 'Z')], 'Z', {}))
+  pg = 'params_generator.py'
+  out.append(translate_func(
+      ctx, pg, '_same_tensor_params_except_id',
+      [('params1', 'o2t'), ('params2', 'o2t')], 'bool', {}))
+  out.append(translate_func(
+      ctx, pg, '_compatible_tensor_params',
+      [('params1', 'o2t'), ('params2', 'o2t')], 'bool',
+      {'_same_tensor_params_except_id': ('_same_tensor_params_except_id',
+                                         'bool')}))
+  return '\n'.join(out)
+
+
 def gen_recipes(ctx):
   """Shipped recipe files as jrule-like raw data (Gen/Recipes.v)."""
   out = [HEADER, 'From VF Require Import Gen.Enums Gen.Configs.\n']
@@ -588,4 +622,5 @@ def generate(ctx):
   files = {}
   files['Checks.v'] = gen_checks(ctx)
   files['Recipes.v'] = gen_recipes(ctx)
+  files['InstChecks.v'] = gen_instchecks(ctx)
   return files
